@@ -331,6 +331,203 @@ fn new_aliases(r: &mut Rng, out: &mut Out) -> Aliases {
     al
 }
 
+
+// ------------------------------------------------------------------------------------------------
+// alias expansion on generated abstract expressions (`expand` requests)
+
+#[derive(Clone, Debug)]
+enum Ast { Ident(usize), Call(usize, Vec<Ast>), Pat(usize, Box<Ast>), Bin(Box<Ast>, Box<Ast>) }
+
+fn gen_ast(r: &mut Rng, d: usize, names: usize) -> Ast {
+    match r.below(if d == 0 { 3 } else { 8 }) {
+        0 | 1 | 2 => Ast::Ident(r.below(names)),
+        3 | 4 => Ast::Call(r.below(names), (0..r.below(3)).map(|_| gen_ast(r, d - 1, names)).collect()),
+        5 => Ast::Pat(r.below(names), Box::new(gen_ast(r, d - 1, names))),
+        _ => Ast::Bin(Box::new(gen_ast(r, d - 1, names)), Box::new(gen_ast(r, d - 1, names))),
+    }
+}
+/// concrete syntax (`template`: `+` instead of `&`); every binary node is parenthesised
+fn render(a: &Ast, template: bool) -> String {
+    match a {
+        Ast::Ident(x) => format!("n{x}"),
+        Ast::Call(f, args) => format!("n{f}({})", args.iter().map(|a| render(a, template)).collect::<Vec<_>>().join(", ")),
+        Ast::Pat(n, v) => format!("n{n}:{}", render(v, template)),
+        Ast::Bin(l, r) => format!("({} {} {})", render(l, template), if template { "+" } else { "&" }, render(r, template)),
+    }
+}
+fn encode(a: &Ast, out: &mut Vec<usize>) {
+    match a {
+        Ast::Ident(x) => out.extend([0, *x]),
+        Ast::Call(f, args) => { out.extend([1, *f, args.len()]); for a in args { encode(a, out); } }
+        Ast::Pat(n, v) => { out.extend([2, *n]); encode(v, out); }
+        Ast::Bin(l, r) => { out.push(3); encode(l, out); encode(r, out); }
+    }
+}
+fn num(name: &str) -> usize { name.trim().trim_start_matches('n').parse().unwrap_or(999) }
+fn encode_id(id: &dsl_util::AliasId<'_>, out: &mut Vec<usize>) {
+    match id {
+        dsl_util::AliasId::Symbol(n) => out.extend([0, num(n)]),
+        dsl_util::AliasId::Pattern(n, p) => out.extend([1, num(n), num(p)]),
+        dsl_util::AliasId::Function(n, ps) => { out.extend([2, num(n), ps.len()]); out.extend(ps.iter().map(|p| num(p))); }
+        dsl_util::AliasId::Parameter(n) => out.extend([3, num(n)]),
+    }
+}
+/// the `Display` form of an `AliasId` (as stored in `InAliasExpansion` / `RecursiveAlias`) back to the encoding
+fn encode_id_text(t: &str) -> String {
+    let mut v = Vec::new();
+    if let Some((n, rest)) = t.split_once('(') {
+        let ps: Vec<usize> = rest.trim_end_matches(')').split(',').filter(|p| !p.trim().is_empty()).map(num).collect();
+        v.extend([2, num(n), ps.len()]); v.extend(ps);
+    } else if let Some((n, p)) = t.split_once(':') { v.extend([1, num(n), num(p)]); }
+    else { v.extend([0, num(t)]); }
+    nums(&v)
+}
+fn nums(v: &[usize]) -> String { if v.is_empty() { "-".into() } else { v.iter().map(|x| x.to_string()).collect::<Vec<_>>().join(",") } }
+
+fn encode_revset(n: &revset::ExpressionNode<'_>, out: &mut Vec<usize>) -> bool {
+    use revset::ExpressionKind as K;
+    match &n.kind {
+        K::Identifier(x) => { out.extend([0, num(x)]); true }
+        K::FunctionCall(f) => { out.extend([1, num(f.name), f.args.len()]); f.keyword_args.is_empty() && f.args.iter().all(|a| encode_revset(a, out)) }
+        K::Pattern(p) => { out.extend([2, num(p.name)]); encode_revset(&p.value, out) }
+        K::Binary(_, l, r) => { out.push(3); encode_revset(l, out) && encode_revset(r, out) }
+        K::AliasExpanded(id, s) => { out.push(4); encode_id(id, out); encode_revset(s, out) }
+        _ => false,
+    }
+}
+fn encode_template(n: &template_parser::ExpressionNode<'_>, out: &mut Vec<usize>) -> bool {
+    use template_parser::ExpressionKind as K;
+    match &n.kind {
+        K::Identifier(x) => { out.extend([0, num(x)]); true }
+        K::FunctionCall(f) => { out.extend([1, num(f.name), f.args.len()]); f.keyword_args.is_empty() && f.args.iter().all(|a| encode_template(a, out)) }
+        K::Pattern(p) => { out.extend([2, num(p.name)]); encode_template(&p.value, out) }
+        K::Binary(_, l, r) => { out.push(3); encode_template(l, out) && encode_template(r, out) }
+        K::AliasExpanded(id, s) => { out.push(4); encode_id(id, out); encode_template(s, out) }
+        _ => false,
+    }
+}
+
+fn revset_err(e: &revset::RevsetParseError) -> String {
+    let mut trace = Vec::new();
+    let mut cur = e;
+    loop {
+        match cur.kind() {
+            RevsetParseErrorKind::InAliasExpansion(id) | RevsetParseErrorKind::InParameterExpansion(id) => {
+                trace.push(encode_id_text(id));
+                match cur.origin() { Some(o) => cur = o, None => return format!("err:no-origin:{}", trace.join("/")) }
+            }
+            k => {
+                let what = match k {
+                    RevsetParseErrorKind::RecursiveAlias(id) => format!("recursive={}", encode_id_text(id)),
+                    RevsetParseErrorKind::InvalidFunctionArguments { name, .. } => format!("args={}", num(name)),
+                    RevsetParseErrorKind::SyntaxError => "syntax".to_string(),
+                    other => format!("other={}", kind_name(&format!("{other:?}"))),
+                };
+                return format!("err:{what}:{}", if trace.is_empty() { "-".to_string() } else { trace.join("/") });
+            }
+        }
+    }
+}
+fn template_err(e: &template_parser::TemplateParseError) -> String {
+    let mut trace = Vec::new();
+    let mut cur = e;
+    loop {
+        match cur.kind() {
+            TemplateParseErrorKind::InAliasExpansion(id) | TemplateParseErrorKind::InParameterExpansion(id) => {
+                trace.push(encode_id_text(id));
+                match cur.origin() { Some(o) => cur = o, None => return format!("err:no-origin:{}", trace.join("/")) }
+            }
+            k => {
+                let what = match k {
+                    TemplateParseErrorKind::RecursiveAlias(id) => format!("recursive={}", encode_id_text(id)),
+                    TemplateParseErrorKind::InvalidArguments { name, .. } => format!("args={}", num(name)),
+                    TemplateParseErrorKind::SyntaxError => "syntax".to_string(),
+                    other => format!("other={}", kind_name(&format!("{other:?}"))),
+                };
+                return format!("err:{what}:{}", if trace.is_empty() { "-".to_string() } else { trace.join("/") });
+            }
+        }
+    }
+}
+
+/// One random alias map (unique keys: symbol by name, pattern by name, function by name and arity — the
+/// real map replaces on re-insertion, the model takes the first match) and a few expressions expanded under it,
+/// through `dsl_util::expand_aliases` on `revset::parse_program` and through `template_parser::parse`.
+fn alias_cases(r: &mut Rng, out: &mut Out) {
+    let names = r.range(2, 5);
+    let mut enc: Vec<usize> = Vec::new();
+    let (mut rs, mut tp, mut fs) = (RevsetAliasesMap::new(), TemplateAliasesMap::new(), FilesetAliasesMap::new());
+    let mut seen = std::collections::HashSet::new();
+    let mut count = 0;
+    for _ in 0..r.range(1, 6) {
+        let name = r.below(names);
+        let dd = r.range(0, 2);
+        let defn = if r.chance(1, 10) { None } else { Some(gen_ast(r, dd, names)) };
+        let (decl, head): (String, Vec<usize>) = match r.below(4) {
+            0 | 1 => { if !seen.insert((0, name, 0)) { continue; } (format!("n{name}"), vec![0, name]) }
+            2 => { if !seen.insert((1, name, 0)) { continue; } let p = r.below(names); (format!("n{name}:n{p}"), vec![1, name, p]) }
+            _ => {
+                let k = r.below(3);
+                if !seen.insert((2, name, k)) { continue; }
+                // distinct parameter names (a repeated parameter is rejected at declaration time)
+                let mut ps: Vec<usize> = Vec::new();
+                while ps.len() < k { let p = r.below(names + 2); if !ps.contains(&p) { ps.push(p); } }
+                let mut h = vec![2, name, k]; h.extend(&ps);
+                (format!("n{name}({})", ps.iter().map(|p| format!("n{p}")).collect::<Vec<_>>().join(", ")), h)
+            }
+        };
+        enc.extend(head);
+        match &defn { None => enc.push(0), Some(a) => { enc.push(1); encode(a, &mut enc); } }
+        let text = |template: bool| match &defn { None => "(((".to_string(), Some(a) => render(a, template) };
+        let ok = rs.insert(&decl, text(false), None).is_ok() & tp.insert(&decl, text(true), None).is_ok() & fs.insert(&decl, text(false), None).is_ok();
+        if !ok { out.oracle_fail("parser:alias-declaration-rejected", format!("declaration {decl:?} rejected")); return; }
+        count += 1;
+    }
+    let mut al = vec![count]; al.extend(enc);
+    let al = nums(&al);
+    for _ in 0..4 {
+        let de = r.range(0, 3);
+        let e = gen_ast(r, de, names);
+        let mut ev = Vec::new(); encode(&e, &mut ev);
+        for template in [false, true] {
+            let text = render(&e, template);
+            let res = guard(|| {
+                if template {
+                    match template_parser::parse(&text, &tp) {
+                        Ok(node) => { let mut v = Vec::new(); if encode_template(&node, &mut v) { format!("ok:{}", nums(&v)) } else { "unexpected-node".to_string() } }
+                        Err(e) => template_err(&e),
+                    }
+                } else {
+                    match revset::parse_program(&text).and_then(|n| dsl_util::expand_aliases(n, &rs)) {
+                        Ok(node) => { let mut v = Vec::new(); if encode_revset(&node, &mut v) { format!("ok:{}", nums(&v)) } else { "unexpected-node".to_string() } }
+                        Err(e) => revset_err(&e),
+                    }
+                }
+            });
+            let lang = if template { "template" } else { "revset" };
+            match res {
+                Ok(ans) => {
+                    out.case(&format!("expand {al} {}", nums(&ev)), &ans);
+                    let key = ans.split(':').take(2).collect::<Vec<_>>().join(":");
+                    out.tally(&format!("expand:{lang}"), &if ans.starts_with("ok") { if ans.contains(",4,") || ans.starts_with("ok:4,") { "ok(expanded)".to_string() } else { "ok(no alias used)".to_string() } } else { key.split('=').next().unwrap().to_string() });
+                    if ans != format!("ok:{}", nums(&ev)) { out.nontrivial(("expand", al.clone(), ev.clone(), template)); }
+                    // property: expansion returns an expression or reports an error (it returned)
+                    out.oracle_ok();
+                }
+                Err(msg) => { out.case(&format!("expand {al} {}", nums(&ev)), "panic"); out.oracle_fail(&format!("parser:panic:{lang}:expand_aliases"), format!("{text:?} panics: {msg}")); }
+            }
+        }
+        // fileset: same code path (`dsl_util::expand_aliases`), observable only as ok / error kind: no panic
+        let text = render(&e, false);
+        let cxf = FilesetParseContext { aliases_map: &fs, path_converter: &RepoPathUiConverter::Fs { cwd: PathBuf::from("/ws"), base: PathBuf::from("/ws") } };
+        out.impl_only();
+        match guard(|| { let mut d = FilesetDiagnostics::new(); fileset::parse(&mut d, &text, &cxf).is_ok() }) {
+            Ok(_) => out.oracle_ok(),
+            Err(msg) => out.oracle_fail("parser:panic:fileset:expand_aliases", format!("{text:?} panics: {msg}")),
+        }
+    }
+}
+
 // ------------------------------------------------------------------------------------------------
 // stack depth: child process
 
@@ -435,6 +632,10 @@ pub fn run(cfg: &Cfg, out: &mut Out) {
         if r.chance(1, 6) { let t = tame(gen_revset(&mut r, 2)); template_text(out, &al, &t); fileset_text(out, &cx, &al, &t); }
     }
 
+    // 2b. alias expansion against the abstract model
+    let mut r2 = cfg.rng(3636);
+    for _ in 0..cfg.n(600, 12_000) { alias_cases(&mut r2, out); }
+
     // 3. moderate nesting, exactly at the depths where the real parser is still fast (≤ 8 parentheses)
     for depth in 1..=8usize {
         let inner = "a";
@@ -472,5 +673,4 @@ pub fn run(cfg: &Cfg, out: &mut Out) {
             else { &[("prefix", 200_000), ("postfix", 1_000_000), ("infix", 250_000), ("union", 250_000), ("prefix", 100_000), ("infix", 1_000_000)] };
         for (kind, n) in giants { deep_case(out, kind, *n); }
     }
-    let _ = dsl_util::escape_string("");
 }
